@@ -385,6 +385,13 @@ def terminal_notifications(chk: Check) -> None:
     c = [x for x in calls_in_func(fe, 'fire_event')]
     ok = len(c) == 1 and [norm(a) for a in c[0].args] == [fe.params[1], 'self', f'*{fe.node.args.vararg.arg}']
     chk.ob('PROV-terminal-event-arg', fe, ok, '_fire_event forwards the event, the process and the arguments to the listeners', kind='fire-forward')
+    listener_loop(chk, 'PROV-terminal-event-arg')
+
+
+def listener_loop(chk: Check, rule: str) -> None:
+    """EventHelper.fire_event calls each listener once with the given arguments, looping over the listeners (a snapshot or the set itself) with each call inside the
+    try that contains a listener's failure."""
+    prog = chk.prog
     # listeners are each called once per event
     eh = prog.func('event_helper.EventHelper.fire_event')
     loops = [n for n in ast.walk(eh.node) if isinstance(n, ast.For)]
@@ -398,7 +405,7 @@ def terminal_notifications(chk: Check) -> None:
         if isinstance(fx, ast.Call) and norm(fx.func) == 'getattr' and fx.args and norm(fx.args[0]) == norm(loops[0].target):
             calls.append(x)
     ok = ok and len(calls) == 1 and [norm(a) for a in calls[0].args] == [f'*{eh.node.args.vararg.arg}']
-    chk.ob('PROV-terminal-event-arg', eh, bool(ok), 'every listener receives the event once with the given arguments', kind='listener-loop')
+    chk.ob(rule, eh, bool(ok), 'every listener receives the event once with the given arguments', kind='listener-loop')
 
 
 # ---------------------------------------------------------------------- 5. close once
